@@ -470,29 +470,31 @@ impl Scala {
             .collect_vec();
         itertools::concat(vec![types_in_aliases, types_in_structs, types_in_enum])
             .iter()
-            .flat_map(|ty| match ty {
-                RustType::Generic { id: _, parameters } => parameters.clone(),
-                RustType::Special(SpecialRustType::Option(ty) | SpecialRustType::Vec(ty)) => {
-                    vec![ty.deref().clone()]
-                }
-                RustType::Special(SpecialRustType::HashMap(kty, vty)) => {
-                    vec![kty.deref().clone(), vty.deref().clone()]
-                }
-                RustType::Special(_) => vec![ty.clone()],
-                RustType::Simple { .. } => vec![],
-            })
-            .any(|ty| {
-                matches!(
-                    ty,
-                    RustType::Special(
-                        SpecialRustType::U8
-                            | SpecialRustType::U16
-                            | SpecialRustType::U32
-                            | SpecialRustType::U53
-                            | SpecialRustType::U64
-                            | SpecialRustType::USize,
-                    )
-                )
-            })
+            .any(contains_unsigned_integer)
+    }
+}
+
+/// True if an unsigned integer occurs anywhere in `ty` (at any depth, arrays and slices included),
+/// i.e. wherever `format_type` will print one of the `UByte`/`UShort`/`UInt`/`ULong` aliases.
+fn contains_unsigned_integer(ty: &RustType) -> bool {
+    match ty {
+        RustType::Simple { .. } => false,
+        RustType::Generic { parameters, .. } => parameters.iter().any(contains_unsigned_integer),
+        RustType::Special(special) => match special {
+            SpecialRustType::Vec(ty)
+            | SpecialRustType::Array(ty, _)
+            | SpecialRustType::Slice(ty)
+            | SpecialRustType::Option(ty) => contains_unsigned_integer(ty),
+            SpecialRustType::HashMap(kty, vty) => {
+                contains_unsigned_integer(kty) || contains_unsigned_integer(vty)
+            }
+            SpecialRustType::U8
+            | SpecialRustType::U16
+            | SpecialRustType::U32
+            | SpecialRustType::U53
+            | SpecialRustType::U64
+            | SpecialRustType::USize => true,
+            _ => false,
+        },
     }
 }
